@@ -22,6 +22,7 @@ for fn in os.listdir("/tmp"):
         if m: val = m.group(1).strip()
 meta = {
  "property": prop,
+ "summary": os.environ.get("SUMMARY") or (json.load(open(os.path.join(dst, "meta.json"))).get("summary", "") if os.path.exists(os.path.join(dst, "meta.json")) else ""),
  "breaks": "see notes.md (written by the sub-agent that seeded the change)",
  "needs_to_manifest": needs,
  "demo": {"file": "demo_test.go", "package_dir": pkg, "run": "go test -vet=off -count=1 -run TestSeed ./" + pkg},
